@@ -32,7 +32,9 @@ META = {
         "lists and dicts, astype, + - * **, getitem, reshape, transpose, concatenate, stack, where} "
         "compared with numpy's astype / result_type on the coefficient arrays; dual-poison "
         "differential (allocator hook on ndpoly.__new__, poison 0xA5 vs 0x5A, output bytes "
-        "diffed) over the whole operation catalogue plus cancelling / filtered / empty results; "
+        "diffed) over the whole operation catalogue plus cancelling / filtered / empty results, "
+        "and riding on the API monitor over the workloads of C01/C02/C05/C06/C19 (every "
+        "polynomial returned across the API boundary is fingerprinted under both poisons); "
         "ASan+UBSan build of the three native modules under the dtype workload (report blocks "
         "counted). signature = (operation, source dtype, target dtype) or (operation, shapes) for "
         "the poison part; non-trivial when the dtypes differ or the dtype has no native writer"
@@ -55,6 +57,8 @@ def shards(tier, seed):
     npoison = 6 if tier == "quick" else 14
     for i in range(npoison):
         out.append({"kind": "poison", "part": i, "per_op": 12 if tier == "quick" else 150})
+    for i in range(2 if tier == "quick" else 6):
+        out.append({"kind": "poison_ride", "part": i, "n": 400 if tier == "quick" else 4000})
     nasan = 3 if tier == "quick" else 8
     for i in range(nasan):
         out.append({"kind": "cast", "flavour": "asan", "part": i, "parts": nasan, "asan": True,
@@ -422,6 +426,77 @@ def run_poison(spec, ctx):
         poison.uninstall()
 
 
+def run_poison_ride(spec, ctx):
+    """Dual-poison differential on every polynomial crossing the API boundary
+    while the workloads of C01/C02/C05/C06/C19 run (M-POISON riding on M-API)."""
+    from vf.monitors.api import ApiMonitor
+    from vf.monitors.poison import Poison, differs, fingerprint
+    from vf.monitors.step import StepMonitor
+    from vf.monitors import wellformed as WF
+    from vf.props.c03 import Sink, borrowed_case, run_borrowed
+
+    poison = Poison()
+    collected = []
+
+    def on_exit(name, token, boundary, value, exc):
+        if exc is None and boundary and any(True for _ in WF.polys_in(value)):
+            collected.append((name, fingerprint(value)))
+
+    api = ApiMonitor(on_enter=None, on_exit=on_exit, boundary_only=True)
+    step = StepMonitor(budget=3000)
+    sink = Sink()
+    g = G.Gen(spec["seed"] * 1000003 + spec["part"] * 7919 + 121)
+    cg = C.ConstGen(0)
+    cg.rng = g.rng
+    sources = ["c01", "c02", "c05", "c06", "c19"]
+    poison.install()
+    step.attach()
+    api.attach()
+    try:
+        cases = [spec["replay_case"]] if "replay_case" in spec else None
+        for i in range(len(cases) if cases else spec["n"]):
+            wrapped = cases[i] if cases else borrowed_case(g, cg, sources[i % len(sources)])
+            wrapped["kind"] = "poison_ride"
+            if not ctx.begin(wrapped):
+                continue
+            runs = []
+            for byte in (0xA5, 0x5A):
+                collected.clear()
+                poison.byte = byte
+                try:
+                    run_borrowed(wrapped, sink, step)
+                except Exception:  # pylint: disable=broad-except
+                    pass
+                finally:
+                    poison.byte = None
+                runs.append(list(collected))
+            ctx.count("poison_runs", 2)
+            ctx.count("poison_ride_returns", len(runs[0]))
+            ctx.evaluated(("ride", wrapped["source"], len(runs[0]) > 0), True)
+            if [n for n, _ in runs[0]] != [n for n, _ in runs[1]]:
+                ctx.violation({"op": wrapped["source"], "failure": "poison", "ride": True},
+                              "the sequence of API returns differs between the two poison bytes: "
+                              f"{[n for n, _ in runs[0]][:8]} vs {[n for n, _ in runs[1]][:8]}", wrapped)
+            else:
+                for (name, f0), (_, f1) in zip(*runs):
+                    text = differs(f0, f1)
+                    if text:
+                        ctx.violation({"op": name.replace("numpoly.", ""), "failure": "poison",
+                                       "ride": True, "source": wrapped["source"]},
+                                      f"{name} returned storage that depends on the poison: {text}",
+                                      wrapped)
+                        break
+            if i < 1 and spec["part"] == 0:
+                ctx.sample({"kind": "poison_ride", "source": wrapped["source"],
+                            "api_returns_compared": len(runs[0])})
+            ctx.end()
+        ctx.count("poison_allocations", poison.allocations)
+    finally:
+        api.detach()
+        step.detach()
+        poison.uninstall()
+
+
 def run(spec, ctx):
     warnings.simplefilter("ignore")
     if "replay_case" in spec:
@@ -430,10 +505,14 @@ def run(spec, ctx):
             ctx.run_case(case, lambda c: run_cast_case(c, ctx))
         elif case.get("kind") == "poison":
             run_poison(spec, ctx)
+        elif case.get("kind") == "poison_ride":
+            run_poison_ride(spec, ctx)
         else:
             run_cast(dict(spec, **{k: case[k] for k in ("part", "parts", "rounds") if k in case}), ctx)
         return
     if spec["kind"] == "cast":
         run_cast(spec, ctx)
+    elif spec["kind"] == "poison_ride":
+        run_poison_ride(spec, ctx)
     else:
         run_poison(spec, ctx)
